@@ -7,7 +7,7 @@ import Irismod.Proofs.FarmBudget
 namespace Irismod.Proofs.Farm
 open Irismod Irismod.Sdk Irismod.Farm Irismod.Spec
 
-theorem core_bankOnly {s s' : State} (b : BankOnly s s') (h : Core s) : Core s' := by
+theorem core_quiet {s s' : State} (b : Quiet s s') (h : Core s) : Core s' := by
   have gp : ∀ id, getPool s' id = getPool s id := fun id => by unfold getPool; rw [b.pools]
   have gf : ∀ a id, getFarmer s' a id = getFarmer s a id := fun a id => by unfold getFarmer; rw [b.farmers]
   refine ⟨by rw [b.height]; exact h.hnn, poolsAll_same h.wf b.pools, ?_, ?_, ?_, ?_, ?_, ?_⟩
@@ -23,6 +23,8 @@ theorem core_bankOnly {s s' : State} (b : BankOnly s s') (h : Core s) : Core s' 
   · intro a id f hf; rw [gf] at hf; rw [gp]; exact h.fpool a id f hf
   · intro id p hp r hr; rw [gp] at hp
     exact (h.ghost id p hp r hr).transfer (by unfold C06.active; rw [b.queue]; exact fun h => h) (by rw [b.height]; exact fun h => h)
+
+theorem core_bankOnly {s s' : State} (b : BankOnly s s') (h : Core s) : Core s' := core_quiet b.quiet h
 
 /-- the rules after `updatePool`: each is the old rule or its released successor -/
 theorem updOk_rule_origin {s s' : State} {id : PoolId} {p p' : Pool} {amount : Int} {d : Bool}
